@@ -77,7 +77,7 @@ class HostileSpec(Spec):
             "additionally runs the finite tables (frame kind x header field x boundary value x stage; "
             "frame kind x byte offset x FIN/RST; ordered pairs of failure kinds) once each with a seeded "
             "schedule; every run counts as non-trivial (each contains faults); distinct = distinct event-log digest")
-    expected_probes = ("liveness_ok", "bystander_msgs_checked", "burst_300", "burst_101")
+    expected_probes = ("liveness_ok", "bystander_msgs_checked", "burst_300", "burst_101", "console_handler_on")
     assumptions = ["the two stalls the manager documents as by-design (a peer that stops reading, or withholds the "
                    "rest of a frame for ever) are never generated",
                    "the TCP model of sim/net.py"]
@@ -134,7 +134,7 @@ class ClientSubSpec(Spec):
             "distinct (subscribed, paused) client states visited")
     expected_probes = ("op_subscribe", "op_pause", "op_resume", "op_sub_ctx", "op_pause_ctx", "refused_ops",
                        "ctx_overlaps_subscribed", "ctx_overlaps_paused", "op_while_sub_all", "op_reconnect",
-                       "reconnect_after_loss")
+                       "reconnect_after_loss", "twin_instance")
     components = {"real": REAL_MANAGER + REAL_CLIENT, "stub": STUB_NET}
     assumptions = ["model-free: client and manager are compared with each other, the statement's own criterion",
                    "all connections writable during probes (a drop would be a legitimate non-delivery)"]
@@ -184,7 +184,7 @@ class ReadPathSpec(Spec):
             "operation/outcome trace")
     expected_probes = ("read_msg", "read_none", "read_unknown", "read_invalid", "read_lost", "skipped_frames",
                        "lost_checked_fin", "lost_checked_rst", "decode_error_checked", "returned_checked",
-                       "blocking_read_fed", "decode_error_on_cut_frame")
+                       "blocking_read_fed", "decode_error_on_cut_frame", "second_session", "scratch_redefined")
     components = {"real": REAL_CLIENT + ["pyrtma.message / header / validators / core_defs"],
                   "stub": ["socket/select/time fakes", "scripted server actor with the independent struct codec",
                            "no manager in this harness"]}
